@@ -2,7 +2,15 @@
 
 package graph
 
-import "context"
+import (
+	"context"
+	"fmt"
+
+	"github.com/sourcegraph/conc/panics"
+
+	"github.com/openfga/openfga/internal/concurrency"
+	"github.com/openfga/openfga/internal/iterator"
+)
 
 // Re-exports of the unexported set-operation reducers for the verification harness.
 func VerifUnion(ctx context.Context, limit int, hs ...CheckHandlerFunc) (*ResolveCheckResponse, error) {
@@ -13,4 +21,33 @@ func VerifIntersection(ctx context.Context, limit int, hs ...CheckHandlerFunc) (
 }
 func VerifExclusion(ctx context.Context, limit int, hs ...CheckHandlerFunc) (*ResolveCheckResponse, error) {
 	return exclusion(ctx, limit, hs...)
+}
+
+// VerifFastPath runs one of the weight-2 stream set operations (fastPathUnion / fastPathIntersection /
+// fastPathDifference) the way fastPathOperationSetup does: streams over the given source channels,
+// an output channel buffered with one slot per child.
+func VerifFastPath(ctx context.Context, op string, sources []chan *iterator.Msg) chan *iterator.Msg {
+	streams := make([]*iterator.Stream, 0, len(sources))
+	for i, s := range sources {
+		streams = append(streams, iterator.NewStream(i, s))
+	}
+	var resolver fastPathSetHandler
+	switch op {
+	case "union":
+		resolver = fastPathUnion
+	case "intersection":
+		resolver = fastPathIntersection
+	default:
+		resolver = fastPathDifference
+	}
+	out := make(chan *iterator.Msg, len(sources))
+	go func() {
+		recoveredError := panics.Try(func() {
+			resolver(ctx, iterator.NewStreams(streams), out)
+		})
+		if recoveredError != nil {
+			concurrency.TrySendThroughChannel(ctx, &iterator.Msg{Err: fmt.Errorf("%w: %w", ErrPanic, recoveredError.AsError())}, out)
+		}
+	}()
+	return out
 }
